@@ -150,6 +150,19 @@ def s_resolution(c, ph, Ts):
     return 0.0
 
 
+def li2_slack(m):
+    """ZABRANSKY_QUASIPOLYNOMIAL: the dependency's closed form of the integral of Cn/T contains R*a1*Li2(T/Tc) with
+    fluids.numerics.polylog2, a Pade approximation in three pieces (splits at T/Tc = 0.7 and 0.99, documented relative
+    error 1e-7).  The antiderivative therefore carries an absolute error of about R*|a1|*1.7e-7 and is DISCONTINUOUS at
+    the two splits (Butanol, a1 = 408: step of 5.3e-4 J/mol/K at 0.7*563.05 = 394.135 K).
+    Returns (absolute slack for an S difference, split temperatures)."""
+    corr = getattr(m, 'correlations', {}).get(m.method)
+    if corr and corr[2] == 'Zabransky_quasi_polynomial':
+        kw = corr[1]
+        return 4.0 * R * abs(kw['a1']) * 1.7e-7, (0.7 * kw['Tc'], 0.99 * kw['Tc'])
+    return 0.0, ()
+
+
 def has_vap(c):
     """Complete vaporisation data: Hvap(Tb) exists (not so for Glucose, whose Tb exceeds Tc, or when a model adopted
     with copy_models_from cannot be evaluated at this chemical's Tb)."""
@@ -200,6 +213,7 @@ def draw_T(ch, label, lo, hi, specials=()):
 #                             epsrel=1.49e-8 from the transition temperature, and two such integrals are differenced
 #   ZABRANSKY_QUASIPOLYNOMIAL chemicals' integral-over-T uses fluids.numerics.polylog2, a numerical approximation
 #                             of Li2(T/Tc); deviates from quadrature by up to 6e-5 relative (200000-case thorough run)
+#                             and steps by R*a1*1.5e-7 at T/Tc = 0.7 and 0.99 (see li2_slack)
 DT_RTOL = 1e-7
 DERIV_RTOL = 1e-5
 DERIV_RTOL_M = {'VDI_TABULAR': 1e-3}    # quad noise 1.49e-8*|integral| divided by the stencil width
@@ -408,7 +422,7 @@ def prop_db(ch, ctx):
             ctx.metric_max('dT:S_rel:' + m.method, abs((s2 - s1) * sgn - IS) / scS)
         res = s_resolution(c, ph, (T1, T2))
         errS = abs((s2 - s1) * sgn - IS)
-        tolS = S_RTOL.get(m.method, DT_RTOL) * scS + 10 * eS
+        tolS = S_RTOL.get(m.method, DT_RTOL) * scS + 10 * eS + li2_slack(m)[0]
         if errS > tolS:
             kind = 'precision' if errS <= tolS + 8 * res else 'mismatch'
             ctx.fail(f'S.dT|{f3_region(rg, kind)},hp={int(res > 0)}|{kind}',
@@ -439,6 +453,10 @@ def prop_db(ch, ctx):
         ctx.metric_max('deriv:H_rel:' + m.method, max(0.0, abs(dH - cn) - var) / abs(cn))
         ctx.check(abs(dH - cn) <= rt * abs(cn) + var + roundH, f'H.deriv|{rg}|mismatch',
                   f'{name} ref={pr} {ph}: dH/dT at {T} = {dH!r}, Cn = {cn!r} ({m.method})')
+        if any(pts[0] <= tj <= pts[3] for tj in li2_slack(m)[1]):
+            # a finite difference cannot be taken across a step of the dependency's approximate antiderivative
+            ctx.cell('avoided:Li2-split-in-stencil')
+            return
         Ss = [ctx.call('S.deriv', S_of, c, ph, t, P, region=rg) for t in pts]
         dS = d5(Ss)
         roundS = 4e-16 * sum(abs(x) for x in Ss) / h
